@@ -370,3 +370,20 @@ package nbs
 //@   loop 3
 //@     invariant 0 <= i && i < len(addrs)
 //@     invariant !remaining ==> forall k in 0..i: addrs[k].has
+
+// ---- blobstore-backed manifest: success is reported only after the conditional write succeeded (C42)
+
+//@ extern (github.com/dolthub/dolt/go/store/blobstore.Blobstore).CheckAndPutManifest as verif_x_bs_CheckAndPutManifest
+//@   modifies nothing
+//@   ghost_set verif_ghost.bPutOK = (err == nil)
+
+//@ func manifestVersionAndContents
+//@   property C42
+//@   trusted ghost marker only: remembers the lock of the contents it returned
+//@   modifies nothing
+//@   ghost_set verif_ghost.bReadLock = result1.lock
+
+//@ func updateBSWithChecker
+//@   property C42
+//@   requires !verif_ghost.bPutOK && writeHook == nil
+//@   ensures  err == nil ==> (verif_ghost.bPutOK && mc.lock == newContents.lock && mc.root == newContents.root) || mc.lock == verif_ghost.bReadLock
